@@ -166,6 +166,55 @@ fn collect_shape_errors(shape: &Shape, diagnostics: &mut Vec<Diagnostic>) {
     }
 }
 
+/// The bindings of an imported file as the fields of its import shape. The
+/// positions of the names in there are marked as positions in `file`: these
+/// shapes travel on into bindings of the importing document
+/// (`let t = lib.cfg;`), where go-to-definition has to tell them from
+/// positions of its own.
+fn imported_items(imported: &AnalysisResult, file: &Path) -> crate::ast::TupleShape {
+    imported
+        .symbol_table
+        .iter()
+        .map(|(n, (s, p))| {
+            (
+                PositionedItem::new(n.clone(), pos_in_file(p, file)),
+                shape_in_file(s.clone(), file),
+            )
+        })
+        .collect()
+}
+
+fn pos_in_file(pos: &Position, file: &Path) -> Position {
+    if pos.file.is_some() {
+        // Comes from a file that the imported file imports itself.
+        pos.clone()
+    } else {
+        pos.clone().with_file(file)
+    }
+}
+
+fn shape_in_file(shape: Shape, file: &Path) -> Shape {
+    let fields_in_file = |flds: crate::ast::TupleShape| -> crate::ast::TupleShape {
+        flds.into_iter()
+            .map(|(n, s)| {
+                let pos = pos_in_file(&n.pos, file);
+                (PositionedItem::new(n.val, pos), shape_in_file(s, file))
+            })
+            .collect()
+    };
+    match shape {
+        Shape::Tuple(pi) => Shape::Tuple(PositionedItem::new(fields_in_file(pi.val), pi.pos)),
+        Shape::Import(ImportShape::Resolved(pos, flds)) => {
+            Shape::Import(ImportShape::Resolved(pos, fields_in_file(flds)))
+        }
+        Shape::Module(mdef) => {
+            let ret = shape_in_file(mdef.ret().clone(), file);
+            Shape::Module(mdef.with_ret(ret))
+        }
+        other => other,
+    }
+}
+
 /// Recursively walk `shape` and replace any `ImportShape::Unresolved` with
 /// `ImportShape::Resolved` using the workspace cache `resolved`.
 /// This fixes imports that appear nested inside module return types (or tuples),
@@ -181,11 +230,7 @@ fn resolve_imports_in_shape(
                 .map(|d| d.join(pi.val.as_ref()))
                 .unwrap_or_else(|| PathBuf::from(pi.val.as_ref()));
             if let Some(imported) = resolved.get(&import_path) {
-                let tuple_items: crate::ast::TupleShape = imported
-                    .symbol_table
-                    .iter()
-                    .map(|(n, (s, p))| (PositionedItem::new(n.clone(), p.clone()), s.clone()))
-                    .collect();
+                let tuple_items = imported_items(imported, &import_path);
                 Shape::Import(ImportShape::Resolved(pi.pos.clone(), tuple_items))
             } else {
                 shape
@@ -493,11 +538,7 @@ pub fn analyze(
                 result.import_map.insert(name.clone(), import_path.clone());
 
                 if let Some(imported) = resolved.get(&import_path) {
-                    let tuple_items: crate::ast::TupleShape = imported
-                        .symbol_table
-                        .iter()
-                        .map(|(n, (s, p))| (PositionedItem::new(n.clone(), p.clone()), s.clone()))
-                        .collect();
+                    let tuple_items = imported_items(imported, &import_path);
                     let resolved_shape = Shape::Import(ImportShape::Resolved(
                         import_def.path.pos.clone(),
                         tuple_items,
